@@ -1,4 +1,5 @@
 import ExoVerif.Model.VotingPower
+import ExoVerif.Proofs.DecArith
 /-! Helper lemmas for C05. -/
 namespace ExoVerif.VP
 open ExoVerif ExoVerif.KV
@@ -95,5 +96,217 @@ theorem updateLoop_spec (cfgs : List (String × AssetCfg)) (m : Int)
 
 theorem find?_of_mem_keys_none (m : List (String × Opted)) (k : String) (h : k ∉ m.map (·.1)) : find? m k = none :=
   find?_none_of_not_mem m k h
+
+/-! ### the per-AVS loop of the epoch hook -/
+
+/-- `updateVotingPower` is `updateVotingPowerE` with the error swallowed (state unchanged) -/
+theorem updateVotingPower_eq_E (s : St) (avs : String) (i : AvsIn) :
+    updateVotingPower s avs i =
+      (match updateVotingPowerE s avs i with
+       | .ok s' => s'
+       | .error _ => s) := by
+  unfold updateVotingPower updateVotingPowerE
+  by_cases hok : i.assetsOk = true
+  · simp only [hok, Bool.not_true, Bool.false_eq_true, if_false]
+    cases hc : i.cfgs with
+    | none => cases hm : i.minSelf <;> rfl
+    | some cfgs =>
+      cases hm : i.minSelf with
+      | none => rfl
+      | some m =>
+        simp only
+        cases hl : updateLoop cfgs m i.opAssets (getD s.entries avs []) with
+        | error e => rfl
+        | ok r => obtain ⟨es, v⟩ := r; rfl
+  · have hok' : i.assetsOk = false := by cases h : i.assetsOk <;> simp_all
+    simp [hok']
+
+/-- one iteration of the loop, in terms of `updateVotingPower` -/
+theorem hookLoop_cons (inputs : List (String × AvsIn)) (s : St) (avs : String) (rest : List String) :
+    hookLoop inputs s (avs :: rest) =
+      hookLoop inputs (match find? inputs avs with
+                       | some i => updateVotingPower s avs i
+                       | none => s) rest := by
+  unfold hookLoop
+  rw [hookLoopWith]
+  cases hf : find? inputs avs with
+  | none => rfl
+  | some i =>
+    simp only [updateVotingPower_eq_E]
+    cases hu : updateVotingPowerE s avs i <;> rfl
+
+theorem hookLoop_nil (inputs : List (String × AvsIn)) (s : St) : hookLoop inputs s [] = s := by
+  unfold hookLoop; rw [hookLoopWith]
+
+/-- the loop is the left fold of the swallowed-error update over the AVS list -/
+theorem hookLoop_eq_foldl (inputs : List (String × AvsIn)) (l : List String) (s : St) :
+    hookLoop inputs s l =
+      l.foldl (fun s avs =>
+        match find? inputs avs with
+        | some i => updateVotingPower s avs i
+        | none => s) s := by
+  induction l generalizing s with
+  | nil => simp [hookLoop_nil]
+  | cons avs rest ih => rw [hookLoop_cons, ih]; rfl
+
+theorem getD_erase_other {α : Type} (m : List (String × α)) (k k2 : String) (d : α) (h : k2 ≠ k) :
+    getD (erase m k) k2 d = getD m k2 d := by
+  simp [getD, find?_erase_other m k k2 h]
+
+/-- frame: UpdateVotingPower of one AVS does not touch the stored values of any other AVS -/
+theorem updateVotingPower_frame (s : St) (avs a : String) (i : AvsIn) (h : a ≠ avs) :
+    getD (updateVotingPower s avs i).entries a [] = getD s.entries a [] ∧
+    getD (updateVotingPower s avs i).avsVal a 0 = getD s.avsVal a 0 := by
+  unfold updateVotingPower
+  by_cases hok : i.assetsOk = true
+  · simp only [hok, Bool.not_true, Bool.false_eq_true, if_false]
+    cases hc : i.cfgs with
+    | none => cases hm : i.minSelf <;> exact ⟨rfl, rfl⟩
+    | some cfgs =>
+      cases hm : i.minSelf with
+      | none => exact ⟨rfl, rfl⟩
+      | some m =>
+        simp only
+        cases hl : updateLoop cfgs m i.opAssets (getD s.entries avs []) with
+        | error e => exact ⟨rfl, rfl⟩
+        | ok r =>
+          obtain ⟨es, v⟩ := r
+          exact ⟨getD_set_other _ _ _ _ _ h, getD_set_other _ _ _ _ _ h⟩
+  · have hok' : i.assetsOk = false := by cases h : i.assetsOk <;> simp_all
+    simp only [hok', Bool.not_false, if_true]
+    exact ⟨getD_erase_other _ _ _ _ h, getD_erase_other _ _ _ _ h⟩
+
+/-- the operator loop reads only the operator addresses of the stored entries, never their old
+values (the closure starts by zeroing the entry) -/
+theorem updateLoop_keys_only (cfgs : List (String × AssetCfg)) (m : Int)
+    (opAssets : List (String × List (String × AssetState))) :
+    ∀ (es es2 : List (String × Opted)), es.map (·.1) = es2.map (·.1) →
+      updateLoop cfgs m opAssets es = updateLoop cfgs m opAssets es2 := by
+  intro es
+  induction es with
+  | nil =>
+    intro es2 h
+    cases es2 with
+    | nil => rfl
+    | cons p r => simp at h
+  | cons p rest ih =>
+    intro es2 h
+    cases es2 with
+    | nil => simp at h
+    | cons p2 rest2 =>
+      obtain ⟨op, o⟩ := p
+      obtain ⟨op2, o2⟩ := p2
+      simp only [List.map_cons, List.cons.injEq] at h
+      obtain ⟨h1, h2⟩ := h
+      subst h1
+      simp only [updateLoop, ih rest2 h2]
+
+/-- Every AVS of the list whose own update does not fail ends the loop with the values of its own
+successful update, whatever happens to the other AVSs of the list (before or after it, failing or
+not, repeated or not). `K` is the operator set of the AVS when the loop starts. -/
+theorem hookLoop_recomputes (inputs : List (String × AvsIn)) (a : String) (i : AvsIn)
+    (cfgs : List (String × AssetCfg)) (m : Int)
+    (hin : find? inputs a = some i) (hok : i.assetsOk = true) (hc : i.cfgs = some cfgs) (hm : i.minSelf = some m)
+    (K : List String) (es' : List (String × Opted)) (v : Int)
+    (hK : ∀ es : List (String × Opted), es.map (·.1) = K → updateLoop cfgs m i.opAssets es = .ok (es', v)) :
+    ∀ (l : List String) (s : St), (getD s.entries a []).map (·.1) = K →
+      (a ∈ l ∨ (getD s.entries a [] = es' ∧ getD s.avsVal a 0 = v)) →
+      getD (hookLoop inputs s l).entries a [] = es' ∧ getD (hookLoop inputs s l).avsVal a 0 = v := by
+  intro l
+  induction l with
+  | nil =>
+    intro s _ h
+    rw [hookLoop_nil]
+    rcases h with h | h
+    · cases h
+    · exact h
+  | cons x rest ih =>
+    intro s hready h
+    rw [hookLoop_cons]
+    by_cases hx : x = a
+    · subst hx
+      simp only [hin]
+      have hl := hK _ hready
+      have hkeys := (updateLoop_spec cfgs m i.opAssets _ _ _ hl).1
+      have hdone : getD (updateVotingPower s x i).entries x [] = es' ∧
+                   getD (updateVotingPower s x i).avsVal x 0 = v := by
+        simp [updateVotingPower, hok, hc, hm, hl, getD_set_same]
+      apply ih
+      · rw [hdone.1, hkeys, hready]
+      · exact Or.inr hdone
+    · have hne : a ≠ x := fun e => hx e.symm
+      cases hf : find? inputs x with
+      | none =>
+        simp only
+        apply ih _ hready
+        rcases h with h | h
+        · rcases List.mem_cons.1 h with h | h
+          · exact absurd h hne
+          · exact Or.inl h
+        · exact Or.inr h
+      | some j =>
+        simp only
+        obtain ⟨f1, f2⟩ := updateVotingPower_frame s x a j hne
+        apply ih
+        · rw [f1]; exact hready
+        · rcases h with h | h
+          · rcases List.mem_cons.1 h with h | h
+            · exact absurd h hne
+            · exact Or.inl h
+          · exact Or.inr (by rw [f1, f2]; exact h)
+
+/-- an AVS whose update fails before the cached block (prices / decimals / minimum self-delegation
+cannot be resolved) keeps its stored values through the whole loop -/
+theorem hookLoop_failing_keeps (inputs : List (String × AvsIn)) (a : String) (i : AvsIn)
+    (hin : find? inputs a = some i) (hok : i.assetsOk = true) (hf : i.cfgs = none ∨ i.minSelf = none) :
+    ∀ (l : List String) (s : St),
+      getD (hookLoop inputs s l).entries a [] = getD s.entries a [] ∧
+      getD (hookLoop inputs s l).avsVal a 0 = getD s.avsVal a 0 := by
+  intro l
+  induction l with
+  | nil => intro s; rw [hookLoop_nil]; exact ⟨rfl, rfl⟩
+  | cons x rest ih =>
+    intro s
+    rw [hookLoop_cons]
+    by_cases hx : x = a
+    · subst hx
+      simp only [hin]
+      have : updateVotingPower s x i = s := by
+        rcases hf with h | h
+        · simp [updateVotingPower, hok, h]
+        · cases hc : i.cfgs <;> simp [updateVotingPower, hok, h, hc]
+      rw [this]; exact ih s
+    · have hne : a ≠ x := fun e => hx e.symm
+      cases hfx : find? inputs x with
+      | none => simp only; exact ih s
+      | some j =>
+        simp only
+        obtain ⟨f1, f2⟩ := updateVotingPower_frame s x a j hne
+        obtain ⟨g1, g2⟩ := ih (updateVotingPower s x j)
+        exact ⟨by rw [g1, f1], by rw [g2, f2]⟩
+
+/-! ### the self value after a slash: token equivalent of the self share -/
+
+/-- TokensFromShares on a well-formed pool (0 ≤ operator share ≤ total share, total share > 0,
+amount ≥ 0) is the floor of share × amount / total share -/
+theorem selfTokens_eq_floor (st : AssetState) (h0 : 0 ≤ st.operatorShare) (h1 : st.operatorShare ≤ st.totalShare)
+    (h2 : 0 < st.totalShare) (h3 : 0 ≤ st.totalAmount) :
+    selfTokens st = (st.operatorShare * st.totalAmount) / st.totalShare := by
+  have hgt : Dec.gt ⟨st.operatorShare⟩ ⟨st.totalShare⟩ = false := by
+    simp only [Dec.gt, decide_eq_false_iff_not]; omega
+  have hz : Dec.isZero ⟨st.totalShare⟩ = false := by
+    simp only [Dec.isZero, beq_eq_false_iff_ne]; omega
+  have := Dec.tok_eq ⟨st.operatorShare⟩ ⟨st.totalShare⟩ st.totalAmount h0 h2 h3
+  simp only [selfTokens, tokensFromShares, hgt, hz, Bool.false_eq_true, if_false]
+  exact this
+
+theorem selfTokens_le_amount (st : AssetState) (h0 : 0 ≤ st.operatorShare) (h1 : st.operatorShare ≤ st.totalShare)
+    (h2 : 0 < st.totalShare) (h3 : 0 ≤ st.totalAmount) :
+    0 ≤ selfTokens st ∧ selfTokens st ≤ st.totalAmount := by
+  rw [selfTokens_eq_floor st h0 h1 h2 h3]
+  constructor
+  · exact Int.ediv_nonneg (Int.mul_nonneg h0 h3) (Int.le_of_lt h2)
+  · apply Int.ediv_le_of_le_mul h2
+    nlinarith
 
 end ExoVerif.VP
